@@ -81,59 +81,43 @@ theorem resolution_dims_closed_form (len x0 : Int) (n : Nat) (hl : 0 ≤ len) :
       ((x0 + len + 2 ^ n - 1) / 2 ^ n - (x0 + 2 ^ n - 1) / 2 ^ n, (x0 + 2 ^ n - 1) / 2 ^ n) :=
   resDims_closed len x0 n hl
 
-/-- (4c) FULL statement of tile-origin agreement inside the encoder: the sub-band extents the encoder cuts
-    out of the transformed tile (getSubbandsForResolution: ceil splits of the tile WIDTH) equal the extents the
-    wavelet (ForwardMultilevelWithParity with the tile origin) and the decoder use — for every origin. -/
-def subband_split_agreement_FullStatement : Prop :=
-  ∀ (len x0 : Int) (n : Nat), 1 ≤ len → 0 ≤ x0 → n ≤ 6 → (resDims len x0 n).1 = encLowLen len n
+/-- (4c) tile-origin agreement inside the encoder, FULL (since fix 104b234): for every tile origin, size and
+    level count the sub-band extents the encoder cuts out of the transformed tile (getSubbandsForResolution) are
+    the extents of the wavelet (ForwardMultilevelWithParity with the tile origin) and of the decoder
+    (t2/geometry.go), namely the canvas interval lengths ⌈(x0+len)/2ⁿ⌉ − ⌈x0/2ⁿ⌉ -/
+theorem subband_split_agreement (len x0 : Int) (n : Nat) (hl : 0 ≤ len) :
+    encLowLen len x0 n = (resDimsT2 len x0 n).1 ∧
+    encLowLen len x0 n = (x0 + len + 2 ^ n - 1) / 2 ^ n - (x0 + 2 ^ n - 1) / 2 ^ n := by
+  unfold encLowLen
+  rw [resDimsT2_eq, resDims_closed len x0 n hl]
+  exact ⟨rfl, rfl⟩
 
-/-- (4c, proved part) holds when the tile origin is a multiple of 2ⁿ (n = number of splits) — in particular
-    for the single-tile case x0 = 0 of C04. Missing: every origin not aligned to 2ⁿ (see the counterexample). -/
-theorem subband_split_agreement_partial (len x0 : Int) (n : Nat) (hl : 0 ≤ len) (hal : x0 % 2 ^ n = 0) :
-    (resDims len x0 n).1 = encLowLen len n := aligned_agree len x0 n hl hal
+example : encLowLen 5 5 1 = 2 ∧ encLowLen 5 8 3 = 1 ∧ encLowLen 37 0 3 = 5 := by decide
 
-example : (5 : Int) % 2 ^ 0 = 0 ∧ (8 : Int) % 2 ^ 3 = 0 ∧ (resDims 5 8 3).1 = 1 := by decide
+/-- regression anchor (old defect `j2k-tiled-subband-split-ignores-origin-parity`): 12×12 image, 5×5 tiles, tile 1
+    has x0 = 5, width 5; one level: wavelet and decoder have 2 low-pass samples; the old encoder (ceil split of the
+    tile width) cut 3, the repaired one 2.  The old shape agreed only for origins aligned to 2ⁿ. -/
+example : (resDims 5 5 1).1 = 2 ∧ encLowLenOld 5 1 = 3 ∧ encLowLen 5 5 1 = 2 := by decide
 
-/-- (4c) is FALSE on the unchanged tree: 12×12 image, 5×5 tiles, tile 1 has x0 = 5, width 5; one level:
-    the wavelet/decoder low-pass has 2 samples, the encoder cuts 3. -/
-theorem subband_split_agreement_counterexample : ¬ subband_split_agreement_FullStatement := by
-  intro h
-  have := h 5 5 1 (by decide) (by decide) (by decide)
-  revert this
-  decide
+theorem subband_split_old_shape_aligned (len x0 : Int) (n : Nat) (hl : 0 ≤ len) (hal : x0 % 2 ^ n = 0) :
+    (resDims len x0 n).1 = encLowLenOld len n := aligned_agree len x0 n hl hal
 
-/-- (5) FULL statement of code-block index agreement: encoder and decoder give the same (precinct, grid index)
-    to the code-block at band offset cbX0, for every resolution origin resX0 of the tile -/
-def codeblock_index_agreement_FullStatement : Prop :=
-  ∀ (resX0 cbX0 pw cbw : Int), 0 ≤ resX0 → 0 ≤ cbX0 → 4 ≤ cbw → cbw ≤ pw →
-    decCbIndex resX0 cbX0 pw cbw = encCbIndex cbX0 pw cbw
-
-/-- (5, proved part) they agree when the resolution origin is a multiple of the precinct width (e.g. 0: the
-    single-tile case). Missing: every tile whose resolution origin is not a multiple of the precinct size. -/
-theorem codeblock_index_agreement_partial (resX0 cbX0 pw cbw : Int) (h0 : 0 ≤ resX0) (hc : 0 ≤ cbX0)
-    (hpw : 1 ≤ pw) (hal : resX0 % pw = 0) :
-    decCbIndex resX0 cbX0 pw cbw = encCbIndex cbX0 pw cbw := by
+/-- (5) code-block index agreement, FULL (since fix 104b234): encoder (buildTilePacketEncoder) and decoder
+    (collectCodeBlockEntries) give the same (precinct column, grid index) to the code-block at band offset cbX0,
+    for every canvas origin of the tile-component at that resolution, precinct and code-block width -/
+theorem codeblock_index_agreement (resX0 cbX0 pw cbw : Int) (h0 : 0 ≤ resX0) (hpw : 1 ≤ pw) :
+    decCbIndex resX0 cbX0 pw cbw = encCbIndex resX0 cbX0 pw cbw := by
   unfold decCbIndex encCbIndex Gen.J2kT2.floorDiv
   have c1 : ¬ pw ≤ 0 := by omega
   simp only [c1, decide_false, Bool.false_eq_true, if_false, ge_iff_le, h0, decide_true, if_true]
-  rw [tdiv_eq_ediv h0]
-  have hx : resX0 / pw * pw = resX0 := by
-    have := Int.mul_ediv_add_emod resX0 pw; rw [Int.mul_comm] at this; omega
-  rw [hx]
-  have e : resX0 + cbX0 - resX0 = cbX0 := by omega
-  rw [e]
-  have e2 : ∀ t, resX0 + cbX0 - (resX0 + t) = cbX0 - t := by intro t; omega
-  rw [e2]
 
-example : decCbIndex 0 64 32768 64 = (0, 1) ∧ encCbIndex 64 32768 64 = (0, 1) := by decide
+example : decCbIndex 16 0 32768 16 = (0, 1) ∧ encCbIndex 16 0 32768 16 = (0, 1) ∧
+    decCbIndex 0 64 32768 64 = (0, 1) ∧ decCbIndex 70 40 64 16 = (0, 2) ∧ decCbIndex 70 60 64 16 = (1, 0) := by decide
 
-/-- (5) is FALSE on the unchanged tree: 17×8 image, 8×8 tiles, 16×16 code-blocks, 0 levels: tile 2 has
-    resX0 = 16; its only code-block gets grid index 1 in the decoder and 0 in the encoder
-    (tag-tree shapes 2×1 vs 1×1). -/
-theorem codeblock_index_agreement_counterexample : ¬ codeblock_index_agreement_FullStatement := by
-  intro h
-  have := h 16 0 32768 16 (by decide) (by decide) (by decide) (by decide)
-  revert this
+/-- regression anchor (old defect `j2k-tiled-codeblock-index-canvas-vs-local`): 17×8 image, 8×8 tiles, 16×16
+    code-blocks, 0 levels: tile 2 has resX0 = 16; its only code-block has grid index 1 in the decoder; the old
+    encoder (tile-local) said 0 (tag-tree shapes 2×1 vs 1×1), the repaired one 1 -/
+example : decCbIndex 16 0 32768 16 = (0, 1) ∧ encCbIndexOld 0 32768 16 = (0, 0) ∧ encCbIndex 16 0 32768 16 = (0, 1) := by
   decide
 
 /-- (6) tiled pipeline, partial: IF the per-tile codec (`codec k`: DWT with origin parity → T1 → T2 →
@@ -141,8 +125,8 @@ theorem codeblock_index_agreement_counterexample : ¬ codeblock_index_agreement_
     encode/decode of a component plane is the identity on all W·H samples: tile geometry, cut-out and placement
     are the theorems above.
     Named hypothesis `htile`: per-tile codec exact (C20 covers RCT/DWT, C04 the T2 primitives; T1/MQ/packet
-    sequencing unproved).  On the unchanged tree `htile` is REFUTED by the search for tiles whose origin is
-    not aligned (theorems 4c and 5 show where encoder and decoder geometry part). -/
+    sequencing unproved).  Since fix 104b234 the search finds no tiling that refutes `htile` (before it, theorems
+    4c and 5 failed for tiles whose origin is not aligned). -/
 theorem tiled_roundtrip_partial (codec : Nat → Plane → Plane) (htile : ∀ k t, codec k t = t)
     (src out : Plane) (W H TW TH : Nat) (hW : 1 ≤ W) (hH : 1 ≤ H) (hTW : 1 ≤ TW) (hTH : 1 ≤ TH)
     (i : Nat) (hi : i < W * H) :
